@@ -3,6 +3,10 @@
 
 Granularity: one transition per event that the code logs while it holds the queue mutex (hook H2).
 Shared state `(items, cur, closed)` is `QueueInner` (lines 50–54); `cap` is `capacity_bytes`.
+Line numbers refer to the file after commit c0ac607 (repair of D5): `push` waits while
+`current_size + size > capacity && !items.is_empty() && !closed` (107–110), `try_push` says
+`WouldBlock` iff `current_size + size > capacity && !items.is_empty()` (154) — an item is admitted
+iff the queue is open and (it fits on top of what is queued or the queue is empty).
 The two condition variables `not_full` / `not_empty` are the sets of threads whose status is
 `waitNF` / `waitNE`.
 
@@ -22,7 +26,8 @@ therefore slightly finer (more interleavings), never coarser.
 
 Naming: the code's "admit" is `HEv.accept` / `State.enq` here (the proof audit greps for the bare
 tactic name, so it cannot be used as an identifier). Sizes are in ℕ; `Props.C06.no_usize_overflow`
-shows that the `usize` sums of the code do not wrap when every item fits and `2*cap < 2^64`.
+shows that the `usize` sums of the code do not wrap when every item is at most `M` bytes and
+`max cap M + M < 2^64`.
 
 Priorities: the `Ord` of `T` is represented by a `Nat` key (`Item.prio`); two items with the same
 key are `Ordering::Equal`. `BinaryHeap::pop` "returns a greatest element": a take event names the
@@ -41,15 +46,15 @@ deriving DecidableEq, Repr
 inductive TStatus where
   /-- not inside a blocking call -/
   | idle
-  /-- inside `push` (97–133), about to evaluate the `while` condition of line 105 -/
+  /-- inside `push` (97–138), about to evaluate the `while` condition of lines 107–110 -/
   | pushing (it : Item)
-  /-- inside `not_full.wait` (108), in the wait set -/
+  /-- inside `not_full.wait` (113), in the wait set -/
   | waitNF (it : Item)
   /-- removed from the `not_full` wait set by a notify, not yet resumed -/
   | notifNF (it : Item)
-  /-- inside `pull` (186–219), about to evaluate the `while` condition of line 194 -/
+  /-- inside `pull` (191–224), about to evaluate the `while` condition of line 199 -/
   | pulling
-  /-- inside `not_empty.wait` (197), in the wait set -/
+  /-- inside `not_empty.wait` (202), in the wait set -/
   | waitNE
   /-- removed from the `not_empty` wait set by a notify, not yet resumed -/
   | notifNE
@@ -141,19 +146,19 @@ def sizeSum : List Item → Nat
   | x :: xs => x.size + sizeSum xs
 
 /-- `it` is queued and no queued item has a strictly larger key: a legal result of
-`BinaryHeap::pop` (lines 210, 236). -/
+`BinaryHeap::pop` (lines 215, 241). -/
 def isMax (items : List Item) (it : Item) : Bool :=
   items.contains it && items.all (fun y => decide (y.prio ≤ it.prio))
 
 def State.setT (s : State) (t : Nat) (st : TStatus) : State :=
   { s with thr := s.thr.set t st }
 
-/-- `not_empty.notify_one()` (130, 165). -/
+/-- `not_empty.notify_one()` (135, 170). -/
 def notifyNE (s : State) : Option Nat → Option State
   | some u => if s.thr[u]? = some .waitNE then some (s.setT u .notifNE) else none
   | none => if s.thr.all (fun x => !x.isWaitNE) then some s else none
 
-/-- `not_full.notify_one()` (216, 242). -/
+/-- `not_full.notify_one()` (221, 247). -/
 def notifyNF (s : State) : Option Nat → Option State
   | some u =>
     match s.thr[u]? with
@@ -161,17 +166,17 @@ def notifyNF (s : State) : Option Nat → Option State
     | _ => none
   | none => if s.thr.all (fun x => !x.isWaitNF) then some s else none
 
-/-- effect of `notify_all` on both condition variables (262–263) on one thread -/
+/-- effect of `notify_all` on both condition variables (267–268) on one thread -/
 def wakeAll : TStatus → TStatus
   | .waitNF it => .notifNF it
   | .waitNE => .notifNE
   | x => x
 
-/-- lines 121–127 / 156–162: insert, account, linearise -/
+/-- lines 126–132 / 161–167: insert, account, linearise -/
 def State.enq (s : State) (t : Nat) (it : Item) : State :=
   { s with items := it :: s.items, cur := s.cur + it.size, hist := .accept t it :: s.hist }
 
-/-- lines 210–213 / 236–239: remove, account, linearise -/
+/-- lines 215–218 / 241–244: remove, account, linearise -/
 def State.take (s : State) (t : Nat) (it : Item) : State :=
   { s with items := s.items.erase it, cur := s.cur - it.size, hist := .take t it :: s.hist }
 
@@ -179,81 +184,83 @@ def State.log (s : State) (e : HEv) : State := { s with hist := e :: s.hist }
 
 /-- The transition function: `none` = the event is not enabled in `s`. -/
 def step (cap : Nat) (s : State) : Event → Option State
-  -- push, line 100–102
+  -- push, 100–102
   | .pushEnter t it =>
     if s.thr[t]? = some .idle then some (s.setT t (.pushing it)) else none
-  -- push, line 105–108: loop condition true
+  -- push, 107–113: loop condition true (too full, not empty, open)
   | .pushWait t =>
     match s.thr[t]? with
     | some (.pushing it) =>
-      if s.cur + it.size > cap ∧ s.closed = false then some (s.setT t (.waitNF it)) else none
+      if s.cur + it.size > cap ∧ s.items ≠ [] ∧ s.closed = false then some (s.setT t (.waitNF it))
+      else none
     | _ => none
-  -- push, line 108–110: `wait` returns after a notify
+  -- push, 113–115: `wait` returns after a notify
   | .pushWake t =>
     match s.thr[t]? with
     | some (.notifNF it) => some (s.setT t (.pushing it))
     | _ => none
-  -- push, line 108–110: `wait` returns spuriously
+  -- push, 113–115: `wait` returns spuriously
   | .pushSpur t =>
     match s.thr[t]? with
     | some (.waitNF it) => some (s.setT t (.pushing it))
     | _ => none
-  -- push, line 105 false, 114–118
+  -- push, loop condition false, 119–123
   | .pushRefuse t =>
     match s.thr[t]? with
     | some (.pushing it) =>
       if s.closed = true then some ((s.setT t .idle).log (.refuse t it)) else none
     | _ => none
-  -- push, line 105 false, 114 false, 121–132
+  -- push, loop condition false, 119 false, 126–137: fits, or the queue is empty
   | .pushAdmit t w =>
     match s.thr[t]? with
     | some (.pushing it) =>
-      if s.cur + it.size ≤ cap ∧ s.closed = false then notifyNE ((s.setT t .idle).enq t it) w
+      if (s.cur + it.size ≤ cap ∨ s.items = []) ∧ s.closed = false then
+        notifyNE ((s.setT t .idle).enq t it) w
       else none
     | _ => none
-  -- try_push 141–147
+  -- try_push 146–152
   | .tryPushRefuse t it =>
     if s.thr[t]? = some .idle ∧ s.closed = true then some (s.log (.refuse t it)) else none
-  -- try_push 149–153
+  -- try_push 154–158
   | .tryPushWouldBlock t it =>
-    if s.thr[t]? = some .idle ∧ s.closed = false ∧ s.cur + it.size > cap then
+    if s.thr[t]? = some .idle ∧ s.closed = false ∧ s.cur + it.size > cap ∧ s.items ≠ [] then
       some (s.log (.wouldBlock t it))
     else none
-  -- try_push 155–167
+  -- try_push 160–172
   | .tryPushAdmit t it w =>
-    if s.thr[t]? = some .idle ∧ s.closed = false ∧ s.cur + it.size ≤ cap then
+    if s.thr[t]? = some .idle ∧ s.closed = false ∧ (s.cur + it.size ≤ cap ∨ s.items = []) then
       notifyNE (s.enq t it) w
     else none
-  -- pull 189–191
+  -- pull 194–196
   | .pullEnter t =>
     if s.thr[t]? = some .idle then some (s.setT t .pulling) else none
-  -- pull 194–197
+  -- pull 199–202
   | .pullWait t =>
     if s.thr[t]? = some .pulling ∧ s.items = [] ∧ s.closed = false then some (s.setT t .waitNE)
     else none
-  -- pull 197–199 after a notify
+  -- pull 202–204 after a notify
   | .pullWake t =>
     if s.thr[t]? = some .notifNE then some (s.setT t .pulling) else none
-  -- pull 197–199 spurious
+  -- pull 202–204 spurious
   | .pullSpur t =>
     if s.thr[t]? = some .waitNE then some (s.setT t .pulling) else none
-  -- pull 194 false, 203–207
+  -- pull 199 false, 208–212
   | .pullEos t =>
     if s.thr[t]? = some .pulling ∧ s.items = [] ∧ s.closed = true then
       some ((s.setT t .idle).log (.eos t))
     else none
-  -- pull 194 false, 203 false, 210–218
+  -- pull 199 false, 208 false, 215–223
   | .pullTake t it w =>
     if s.thr[t]? = some .pulling ∧ isMax s.items it = true then
       notifyNF ((s.setT t .idle).take t it) w
     else none
-  -- try_pull 229–233
+  -- try_pull 234–238
   | .tryPullEmpty t =>
     if s.thr[t]? = some .idle ∧ s.items = [] then some (s.log (.empty t)) else none
-  -- try_pull 236–244
+  -- try_pull 241–249
   | .tryPullTake t it w =>
     if s.thr[t]? = some .idle ∧ isMax s.items it = true then notifyNF (s.take t it) w else none
-  -- close 256–263
+  -- close 261–268
   | .close t =>
     if s.thr[t]? = some .idle then
       some { s with closed := true, thr := s.thr.map wakeAll, hist := .close t :: s.hist }
